@@ -195,3 +195,90 @@ func verifHarness_C09_connection_error() {
 	verifC09Run(cfg, []int{first, second}, "connection-error")
 	verifAssert(false, "witness")
 }
+
+// status codes: whatever code the handler passes to WriteHeader is the code a
+// client decodes (both decoders), including codes net/http has no text for.
+func verifHarness_C09_status_codes() {
+	code := []int{201, 404, 500, 299, 599, 418}[verifChoose("status", 6)]
+	conn := &verifNetConn{failAt: -1}
+	e := verifHTTPEngine()
+	p := verifServerParser(conn, e, nil)
+	req := &http.Request{Method: "GET", Proto: "HTTP/1.1", ProtoMajor: 1, ProtoMinor: 1, Header: http.Header{}}
+	res := NewResponse(p, req)
+	res.Header().Set("Date", "x")
+	res.WriteHeader(code)
+	n := verifChoose("body_len", 3)
+	body := verifBytes("body", n)
+	if n > 0 {
+		got, err := res.Write(body)
+		verifAssertD(err == nil && got == n, "successful-write-reports-its-size", "status-codes")
+	}
+	(&ServerProcessor{}).flushResponse(p, res)
+	w := conn.wire()
+	d := verifDecodeResponse(w)
+	verifAssertD(d.ok && d.consumed == len(w), "wire-decodes-as-one-response", "status-codes")
+	if d.ok {
+		verifAssertD(d.code == code, "status", "handler-code")
+		verifAssertD(len(d.body) == n && verifEqBytes(d.body, body), "body-is-concatenation-of-writes", "status-codes")
+	}
+	br := bufio.NewReader(bytes.NewReader(append([]byte(nil), w...)))
+	hr, err := http.ReadResponse(br, req)
+	verifAssertD(err == nil, "net/http-decodes-the-response", "status-codes")
+	if err == nil {
+		verifAssertD(hr.StatusCode == code, "net/http-status", "handler-code")
+	}
+	verifAssert(false, "witness")
+}
+
+// ReadFrom (what io.Copy(w, r) uses): with or without a preceding WriteHeader
+// and Content-Length, after or without an ordinary Write.
+func verifHarness_C09_readfrom() {
+	conn := &verifNetConn{failAt: -1}
+	e := verifHTTPEngine()
+	p := verifServerParser(conn, e, nil)
+	req := &http.Request{Method: "GET", Proto: "HTTP/1.1", ProtoMajor: 1, ProtoMinor: 1, Header: http.Header{}}
+	res := NewResponse(p, req)
+	res.Header().Set("Date", "x")
+	res.Header().Set("Content-Type", "t")
+	n := 1 + verifChoose("body_len", 4)
+	data := verifBytes("file", n)
+	declareCL := verifChoose("declare_cl", 2) == 1
+	writeHeader := verifChoose("write_header", 2) == 1
+	before := verifChoose("before_readfrom", 3) // nothing / a Write / a Write and a Flush
+	var pre []byte
+	if before > 0 {
+		pre = verifBytes("pre", 2)
+	}
+	name := "bare"
+	if declareCL {
+		res.Header().Set("Content-Length", strconv.Itoa(n+len(pre)))
+		name = "content-length"
+	}
+	if writeHeader {
+		res.WriteHeader(200)
+		name += "+writeheader"
+	}
+	if before > 0 {
+		k, err := res.Write(append([]byte(nil), pre...))
+		verifAssertD(err == nil && k == 2, "successful-write-reports-its-size", "before-readfrom")
+		name += "+write"
+		if before == 2 {
+			res.Flush()
+			name += "+flush"
+		}
+	}
+	got, err := res.ReadFrom(bytes.NewReader(data))
+	verifAssertD(err == nil && got == int64(n), "successful-write-reports-its-size", "readfrom:"+name)
+	data = append(append([]byte(nil), pre...), data...)
+	n = len(data)
+	(&ServerProcessor{}).flushResponse(p, res)
+	w := conn.wire()
+	d := verifDecodeResponse(w)
+	verifAssertD(d.ok, "wire-decodes-as-one-response", "readfrom:"+name)
+	if d.ok {
+		verifAssertD(d.consumed == len(w), "nothing-after-the-response", "readfrom:"+name)
+		verifAssertD(d.code == 200, "status", "readfrom:"+name)
+		verifAssertD(len(d.body) == n && verifEqBytes(d.body, data), "body-is-concatenation-of-writes", "readfrom:"+name)
+	}
+	verifAssert(false, "witness")
+}
